@@ -331,7 +331,7 @@ def sigma1(model, profile='quick'):
     add(add_fp(cfg, 'A', '/', 'c1'))
     add(add_fp(cfg, 'A', '/', 'c2049'))
     add(add_fp(cfg, 'B', '/', 'c1'))
-    add(add_fp(cfg, 'B', '/', 'c2048', 'iso'))
+    add(add_fp(cfg, 'B', '/', 'c4097', 'iso'))
     add(add_fp(cfg, 'B', '/', 'c1', 'jonly'))
     add(add_fp(cfg, 'B', '/', 'c1', 'uonly'))
     add(add_fp(cfg, 'AB', 'D1', 'c2049'))
@@ -347,6 +347,8 @@ def sigma1(model, profile='quick'):
         add(op)
     # symlinks
     for op in symlink_ops(cfg):
+        add(op)
+    for op in symlink_ops(cfg, 'AE', '/ä中/../b')[:2] + symlink_ops(cfg, 'AE', '/ä中/../b')[-1:]:
         add(op)
     # hidden
     add(['set_hidden', {'iso_path': '/A.;1'}])
@@ -366,9 +368,14 @@ def sigma1(model, profile='quick'):
         add(op)
     for op in rmdir_ops(cfg, model):
         add(op)
-    if profile != 'quick':
+    if profile not in ('quick', 'reopen'):
         add(add_fp(cfg, 'AE', '/', 'c1'))
         add(add_fp(cfg, 'AE1', '/', 'c1s1'))
+    if profile == 'reopen':
+        add(add_fp(cfg, 'LONGRR', '/', 'c1') if cfg.get('rr') else None)
+        if model.generation < 2:
+            add(['REOPEN', {}])
+            add(['REOPEN_SAME', {}])
     # macro steps
     macros = []
     if profile in ('macro', 'thorough'):
@@ -469,7 +476,7 @@ def sigma6(model, profile='quick'):
 # ---------------------------------------------------------------------------
 # growth chains: one long history whose every prefix is checked (boundary sweeps)
 
-def chain_files(cfg, n, isolen, dkey='/', rrlen=4, jlen=4, ulen=4, order='lifo', prefix='F'):
+def chain_files(cfg, n, isolen, dkey='/', rrlen=4, jlen=4, ulen=4, order='lifo', prefix='F', late_short=False):
     """n files added one by one to one directory (identifier length isolen), then removed one by one."""
     lvl = cfg.get('level', 1)
     d = DIRS[dkey]
@@ -495,7 +502,13 @@ def chain_files(cfg, n, isolen, dkey='/', rrlen=4, jlen=4, ulen=4, order='lifo',
     pre = []
     if dkey != '/':
         pre = [add_dir(cfg, dkey)] if dkey == 'D1' else [add_dir(cfg, 'D1'), add_dir(cfg, dkey)]
-    return pre + adds + rms
+    mid = []
+    if late_short:
+        # a short name that sorts first and fits into the slack of the first sector: the layout of the later
+        # sectors does not change, only the indices of the later children do
+        mid = [add_fp(cfg, 'A', dkey, 'c1')]
+        rms = rms[:len(rms) // 2] + [['rm_file', {'iso_path': mid[0][1]['iso_path']}]] + rms[len(rms) // 2:]
+    return pre + adds + mid + rms
 
 
 def chain_dirs(cfg, n, isolen, order='lifo', prefix='P', jlen=4, ulen=4):
@@ -530,17 +543,21 @@ def chains_for(cfg, tier):
         out.append(('files-11-fifo', chain_files(cfg, n, 11, order='fifo')))
         out.append(('files-sub', chain_files(cfg, 60, 11, dkey='D2')))
     if lvl > 1:
-        out.append(('files-long', chain_files(cfg, 24 if big else 14, 200, jlen=60, ulen=200, rrlen=100)))
+        out.append(('files-long', chain_files(cfg, 24 if big else 14, 200, jlen=60, ulen=200, rrlen=100, late_short=True)))
     if cfg.get('rr'):
         out.append(('files-rr-ce', chain_files(cfg, 20 if big else 17, 11, rrlen=240, prefix='R')))
     if cfg.get('udf') or cfg.get('joliet'):
-        out.append(('files-jolu', chain_files(cfg, 60 if big else 40, 11, jlen=64, ulen=90)))
+        out.append(('files-jolu', chain_files(cfg, 60 if big else 40, 11, jlen=64, ulen=90, late_short=True)))
     if cfg.get('udf'):
         # UDF file identifiers are 38 + len (4-aligned) bytes after a 40-byte parent entry: a 1-character name
         # (40 bytes) followed by 8-character names (48 bytes) puts the 43rd identifier exactly on a sector boundary
         ch = chain_files(cfg, 48, 11, ulen=8, prefix='V')
         ch[0][1]['udf_path'] = '/a'
         out.append(('udf-align', ch))
+    out.append(('files-shuffle', chain_shuffle(cfg, 70 if big else 56)))
+    dd = chain_dirs(cfg, (300 if lvl == 1 else 24) if big else (24 if lvl > 1 else 40), 207 if lvl > 1 else 8, jlen=64, ulen=40, prefix='Q')
+    if lvl > 1 or big:
+        out.append(('dup-dirs', [['duplicate_pvd', {}]] + dd))
     out.append(('dirs', chain_dirs(cfg, (280 if lvl == 1 else 24) if big else (24 if lvl > 1 else 60), 207 if lvl > 1 else 8, jlen=64, ulen=40)))
     if big and lvl > 1:
         out.append(('dirs-fifo', chain_dirs(cfg, 24, 207, order='fifo', jlen=64, ulen=40)))
@@ -573,6 +590,14 @@ def sigma_ce(model, profile='quick'):
         if cfg.get('udf'):
             kw['udf_path'] = '/' + dname.lower()
         cand.append([['rm_directory', kw]])
+    for sub in ('S1', 'S2'):
+        kw = {'iso_path': '/C1/' + sub, 'rr_name': sub.lower()}
+        if cfg.get('joliet'):
+            kw['joliet_path'] = '/c1/' + sub.lower()
+        if cfg.get('udf'):
+            kw['udf_path'] = '/c1/' + sub.lower()
+        cand.append([['add_directory', kw]])
+        cand.append([['rm_directory', dict((k, v) for k, v in kw.items() if k != 'rr_name')]])
     if profile != 'quick':
         for ln in lens[:2]:
             kw = {'content': 'c1', 'iso_path': '/CF.;1', 'rr_name': 'cf_'.ljust(ln, 'n')}
@@ -587,3 +612,159 @@ def sigma_ce(model, profile='quick'):
 
 
 CFG_RR = [mk(1, rr='1.09'), mk(2, rr='1.10', xa=True), mk(3, rr='1.12'), mk(3, joliet=3, rr='1.12', udf=True)]
+
+
+def reopen_bases(cfg):
+    """Fixed, deliberately varied base histories: images to be reopened and then edited exhaustively."""
+    rr = cfg.get('rr')
+    bases = []
+
+    def S(*ops_):
+        return [[op] for op in ops_ if op is not None]
+    bases.append(('two-empty', S(add_dir(cfg, 'D1'), add_fp(cfg, 'A', '/', 'c0'), add_fp(cfg, 'B', '/', 'c0'), add_fp(cfg, 'AB', 'D1', 'c2049'))))
+    links = link_ops(cfg, None, 'L', ('A',), ('/',))
+    bases.append(('links', S(add_fp(cfg, 'A', '/', 'c2049'), links[0], links[1] if len(links) > 1 else None,
+                             links[2] if len(links) > 2 else None, *(symlink_ops(cfg)[:1]))))
+    bases.append(('boot', S(add_fp(cfg, 'A', '/', 'boot'), ['add_eltorito', {'bootfile_path': '/A.;1'}],
+                            add_fp(cfg, 'B', '/', 'c2049', 'iso'), ['set_hidden', {'iso_path': '/A.;1'}])))
+    if rr:
+        bases.append(('ce', S(add_fp(cfg, 'LONGRR', '/', 'c1'), add_fp(cfg, 'A', '/', 'c1'), add_dir(cfg, 'D1'))))
+        bases.append(('deep', [deep_chain_step(cfg, 9)] + S(add_fp(cfg, 'A', '/', 'c1'))))
+    bases.append(('bigdir', [grow_dir_step(cfg, '/')] + S(add_fp(cfg, 'A', '/', 'c1'))))
+    bases.append(('divergent', S(add_fp(cfg, 'B', '/', 'c1', 'jonly'), add_fp(cfg, 'A', '/', 'c1', 'uonly'), add_dir(cfg, 'E1', 'iso'),
+                                 add_fp(cfg, 'AB', '/', 'c1', 'iso'))))
+    out = []
+    for name, steps in bases:
+        steps = [s for s in steps if s]
+        m = Model(cfg)
+        ok = True
+        for st in steps:
+            m2 = enabled(m, st)
+            if m2 is None:
+                ok = False
+                break
+            m = m2
+        if ok:
+            out.append((name, steps))
+    return out
+
+
+def sigma7(model, profile='quick'):
+    """Hard-link alphabet (C07): names of one content in every namespace, El Torito references, reopen."""
+    cfg = model.cfg
+    cand = []
+
+    def add(op):
+        if op is not None:
+            cand.append([op])
+    add(add_fp(cfg, 'A', '/', 'c20480'))
+    add(add_fp(cfg, 'A', '/', 'c0'))
+    add(add_fp(cfg, 'B', '/', 'c20480s1', 'iso'))
+    if profile != 'quick':
+        add(add_fp(cfg, 'B', '/', 'c1', 'jonly'))
+        add(add_fp(cfg, 'B', '/', 'c1', 'uonly'))
+    for op in link_ops(cfg, model, 'L', ('A',), ('/',)):
+        add(op)
+    kw = {'boot_catalog_old': True, 'iso_new_path': '/L.;1'}
+    if cfg.get('rr'):
+        kw['rr_name'] = 'l'
+    add(['add_hard_link', kw])
+    add(['add_eltorito', {'bootfile_path': '/A.;1'}])
+    add(['add_eltorito', {'bootfile_path': '/B.;1'}])
+    add(['rm_eltorito', {}])
+    for op in removal_ops(model):
+        add(op)
+    if model.generation < (1 if profile == 'quick' else 2):
+        add(['REOPEN', {}])
+    out = []
+    for step in cand:
+        m2 = enabled(model, step)
+        if m2 is not None:
+            out.append((step, m2))
+    return out
+
+
+def chain_shuffle(cfg, n):
+    """
+    Files added in an order that is not the sort order (every add lands in the middle of the directory) and removed
+    in a third order, so that insertions/removals in an early sector are followed by removals in a later one.
+    """
+    base = chain_files(cfg, n, 11, prefix='S')
+    adds, rms = base[:n], base[n:]
+    rms = list(reversed(rms))        # rms[i] removes adds[i]
+    order_add = [(i * 37) % n for i in range(n)] if n % 37 else list(range(n))
+    if len(set(order_add)) != n:
+        order_add = list(range(0, n, 2)) + list(range(1, n, 2))
+    order_rm = [(i * 11 + 5) % n for i in range(n)]
+    if len(set(order_rm)) != n:
+        order_rm = list(range(n - 1, -1, -1))
+    out = [adds[i] for i in order_add]
+    # add one short-named link-like late arrival that sorts first, then remove from the back half first
+    out += [rms[i] for i in order_rm]
+    return out
+
+
+def sigma_readd(model, profile='quick'):
+    """Re-add alphabet: the same names are added, removed and added again (stale lookup caches, stale indices)."""
+    cfg = model.cfg
+    cand = []
+
+    def add(op):
+        if op is not None:
+            cand.append([op])
+    add(add_dir(cfg, 'D1'))
+    add(rm_dir(cfg, 'D1'))
+    add(add_fp(cfg, 'AB', 'D1', 'c1'))
+    add(add_fp(cfg, 'A', 'D1', 'c2049'))
+    add(add_fp(cfg, 'A', '/', 'c1'))
+    add(add_dir(cfg, 'D2'))
+    add(rm_dir(cfg, 'D2'))
+    for op in removal_ops(model, kinds=('rm_file',)):
+        add(op)
+    if profile != 'quick':
+        for op in removal_ops(model, kinds=('rm_hard_link',)):
+            add(op)
+        for op in symlink_ops(cfg)[:1]:
+            add(op)
+    out = []
+    for step in cand:
+        m2 = enabled(model, step)
+        if m2 is not None:
+            out.append((step, m2))
+    return out
+
+
+def sigma11(model, profile='quick'):
+    """El Torito alphabet (C11): several boot images, sections, boot info tables, hidden boot files, removal, reopen."""
+    cfg = model.cfg
+    cand = []
+
+    def add(op):
+        if op is not None:
+            cand.append([op])
+    add(add_fp(cfg, 'A', '/', 'boot'))
+    add(add_fp(cfg, 'B', '/', 'c4097', 'iso'))
+    add(['add_eltorito', {'bootfile_path': '/A.;1'}])
+    add(['add_eltorito', {'bootfile_path': '/A.;1', 'boot_info_table': True, 'boot_load_size': 4}])
+    add(['add_eltorito', {'bootfile_path': '/B.;1', 'boot_info_table': True}])
+    add(['add_eltorito', {'bootfile_path': '/B.;1', 'efi': True, 'platform_id': 0xef, 'bootable': False}])
+    add(['rm_eltorito', {}])
+    add(['rm_hard_link', {'iso_path': '/A.;1'}])
+    add(['rm_hard_link', {'iso_path': '/B.;1'}])
+    add(['rm_hard_link', {'iso_path': '/BOOT.CAT;1'}])
+    add(add_dir(cfg, 'D1'))
+    if profile != 'quick':
+        add(['add_eltorito', {'bootfile_path': '/A.;1', 'platform_id': 1, 'boot_load_seg': 0x7c0}])
+        kw = {'boot_catalog_old': True, 'iso_new_path': '/L.;1'}
+        if cfg.get('rr'):
+            kw['rr_name'] = 'l'
+        add(['add_hard_link', kw])
+        add(['rm_file', {'iso_path': '/B.;1'}])
+    if model.generation < 1:
+        add(['REOPEN', {}])
+    out = []
+    for step in cand:
+        m2 = enabled(model, step)
+        if m2 is not None:
+            out.append((step, m2))
+    return out
